@@ -133,7 +133,7 @@ std::string AnalyzerInformation::getAnalyzerInfoFileFromFilesTxt(std::istream& f
         AnalyzerInformation::Info filesTxtInfo;
         if (!filesTxtInfo.parse(line))
             continue; // TODO: report error?
-        if (endsWith(sourcefile, filesTxtInfo.sourceFile) && filesTxtInfo.cfg == cfg && filesTxtInfo.fsFileId == fsFileId)
+        if (Path::simplifyPath(sourcefile) == filesTxtInfo.sourceFile && filesTxtInfo.cfg == cfg && filesTxtInfo.fsFileId == fsFileId)
             return filesTxtInfo.afile;
     }
     return "";
